@@ -160,6 +160,11 @@ def main(tier=None):
     ops2 += ["get 2104", "get 1979", "append 1000", "run 1000 clean", "get 3104", "get 3079", "bye"]
     c.run_suite(Suite("truncation-boundary", "msglog", ops2, both, {"cases": 1, "nontrivial": 1}, resets=("new",)), timeout=3000)
     samples.append({"suite": "truncation-boundary", "ops": ops2[:10]})
+    # a consumer far behind: 5600 messages (more than eleven segments) are appended while it sits in its third hand-over;
+    # nothing that was not handed over may disappear, whatever the log's own retention does
+    ops3 = ["new", "append 30", "run 3 in", "append 5570", "run 1 in", "run 5598 clean", "get 5599", "get 5574", "bye"]
+    c.run_suite(Suite("large-backlog", "msglog", ops3, both, {"cases": 1, "nontrivial": 1}, resets=("new",)), timeout=3000)
+    samples.append({"suite": "large-backlog", "ops": ops3[:8]})
     c.assumptions += ["vx-labs/commitlog and the mmap'd state file are modelled, not verified", "SIGKILL (page cache survives), not power loss"]
     return c.finish(samples=samples,
                     rule="case = one log length with one crash position and phase (killed inside the k-th callback / stopped after it) "
